@@ -8,6 +8,8 @@ set -u
 cd "$wt" || exit 2
 git diff HEAD > /root/scratch/$id.actual.diff
 if ! diff -q <(git diff HEAD) SEED/patch.diff >/dev/null; then echo "NOTE: patch.diff differs from worktree diff; using the worktree diff"; fi
+# keep the untracked SEED directory out of ./... (it may hold test files meant to be copied elsewhere)
+[ -f SEED/go.mod ] || printf 'module seedfiles\n\ngo 1.23\n' > SEED/go.mod
 echo "== build"; go build ./... || { echo BUILD-FAILS; exit 1; }
 echo "== pinned suite with the change"; /verif/tools/pinned.sh "$wt" || { echo PINNED-FAILS; exit 1; }
 democmd=$(python3 -c "import json;print(json.load(open('SEED/meta.json')).get('demo_cmd',''))")
@@ -20,6 +22,6 @@ echo "demo exit with change=$with without=$without"
 tail -5 /root/scratch/$id.demo.with.log
 [ $with -ne 0 ] && [ $without -eq 0 ] || { echo DEMO-NOT-DISCRIMINATING; exit 1; }
 mkdir -p /verif/seeded/$id
-rsync -a --delete SEED/ /verif/seeded/$id/
+rsync -a --delete --exclude /go.mod SEED/ /verif/seeded/$id/
 cp /root/scratch/$id.actual.diff /verif/seeded/$id/patch.diff
 echo CONFIRMED $id
